@@ -1,6 +1,9 @@
 package smt
 
-import "fmt"
+import (
+	"fmt"
+	"strings"
+)
 
 // Quantifier handling done by the generator rather than left to the solver:
 //  - goal-side universals (negative polarity in the asserted formulas) are skolemised;
@@ -11,8 +14,29 @@ import "fmt"
 
 var skCtr int
 
+// DebugInst prints instantiation statistics.
+var DebugInst bool
+
+var skMemo = map[[2]int]*Term{}
+
 // skolemize rewrites t (asserted with the given polarity: true = asserted as is).
 func skolemize(t *Term, pos bool) *Term {
+	if !HasQuant(t) {
+		return t
+	}
+	k := [2]int{t.ID, 0}
+	if pos {
+		k[1] = 1
+	}
+	if r, ok := skMemo[k]; ok {
+		return r
+	}
+	r := skolemize1(t, pos)
+	skMemo[k] = r
+	return r
+}
+
+func skolemize1(t *Term, pos bool) *Term {
 	switch t.Op {
 	case "not":
 		return Not(skolemize(t.Args[0], !pos))
@@ -45,6 +69,32 @@ type qpat struct {
 	arr *Term // array operand of the select/store (may contain bound vars)
 	v   *Term // bound var
 	off *Term // pattern index is v + off (off may be nil)
+	idx *Term // general case: the whole index pattern, matched syntactically
+}
+
+// match: first-order matching of pattern p (containing bound var v) against ground g.
+func match(p, g, v *Term, bind **Term) bool {
+	if p == v {
+		if *bind == nil {
+			*bind = g
+			return true
+		}
+		return *bind == g
+	}
+	if !p.HasBound {
+		// ground parts of the pattern are wildcards: values merged over paths (ite) rarely match
+		// syntactically, and any instance is a valid consequence anyway
+		return p.S == g.S
+	}
+	if p.Op != g.Op || p.Name != g.Name || p.Val != g.Val || len(p.Args) != len(g.Args) || p.S != g.S {
+		return false
+	}
+	for i := range p.Args {
+		if !match(p.Args[i], g.Args[i], v, bind) {
+			return false
+		}
+	}
+	return true
 }
 
 type gsel struct {
@@ -143,17 +193,23 @@ func patternsOf(body *Term, vars []*Term) []qpat {
 					k := fmt.Sprintf("%d:%d:", t.Args[0].ID, v.ID)
 					if !dedup[k] {
 						dedup[k] = true
-						out = append(out, qpat{t.Args[0], v, nil})
+						out = append(out, qpat{t.Args[0], v, nil, nil})
 					}
-				} else if ix.Op == "bvadd" && len(ix.Args) == 2 {
+				} else if ix.Op == "bvadd" && len(ix.Args) == 2 && (ix.Args[0] == v && !ix.Args[1].HasBound || ix.Args[1] == v && !ix.Args[0].HasBound) {
 					for s := 0; s < 2; s++ {
 						if ix.Args[s] == v && !ix.Args[1-s].HasBound {
 							k := fmt.Sprintf("%d:%d:%d", t.Args[0].ID, v.ID, ix.Args[1-s].ID)
 							if !dedup[k] {
 								dedup[k] = true
-								out = append(out, qpat{t.Args[0], v, ix.Args[1-s]})
+								out = append(out, qpat{t.Args[0], v, ix.Args[1-s], nil})
 							}
 						}
+					}
+				} else if containsVar(ix, v) {
+					k := fmt.Sprintf("%d:%d:m%d", t.Args[0].ID, v.ID, ix.ID)
+					if !dedup[k] {
+						dedup[k] = true
+						out = append(out, qpat{t.Args[0], v, nil, ix})
 					}
 				}
 			}
@@ -186,6 +242,13 @@ func Instantiate(asserts []*Term, maxInst int) []*Term {
 			collect(a, seen, &foralls, &grounds, gseen)
 		}
 		added := false
+		if DebugInst {
+			for _, g := range grounds {
+				if strings.Contains(g.idx.Short(200), "sk!") {
+					fmt.Printf("   ground(sk) idx=%s\n", g.idx.Short(160))
+				}
+			}
+		}
 		for _, f := range foralls {
 			vars := f.Args[:f.NB]
 			body := f.Args[f.NB]
@@ -195,14 +258,26 @@ func Instantiate(asserts []*Term, maxInst int) []*Term {
 			v := vars[0]
 			pats := patternsOf(body, vars)
 			n := 0
+			if DebugInst {
+				fmt.Printf("inst round %d forall %d (%s): %d patterns, %d grounds\n", round, f.ID, v.Name, len(pats), len(grounds))
+			}
 			for _, p := range pats {
+				if DebugInst {
+					ix := "v"
+					if p.idx != nil {
+						ix = p.idx.Short(100)
+					} else if p.off != nil {
+						ix = "v+" + p.off.Short(80)
+					}
+					fmt.Printf("   pattern arr=%s idx=%s\n", p.arr.Short(100), ix)
+				}
 				var pbases map[int]bool
 				if !p.arr.HasBound {
 					pbases = map[int]bool{}
 					basesOf(p.arr, pbases)
 				}
 				for _, g := range grounds {
-					if g.idx.S != v.S {
+					if p.idx == nil && g.idx.S != v.S {
 						continue
 					}
 					if pbases != nil {
@@ -218,7 +293,13 @@ func Instantiate(asserts []*Term, maxInst int) []*Term {
 						}
 					}
 					t := g.idx
-					if p.off != nil {
+					if p.idx != nil {
+						var b *Term
+						if !match(p.idx, g.idx, v, &b) || b == nil {
+							continue
+						}
+						t = b
+					} else if p.off != nil {
 						t = BVSub(g.idx, p.off)
 					}
 					k := fmt.Sprintf("%d/%d", f.ID, t.ID)
@@ -227,6 +308,9 @@ func Instantiate(asserts []*Term, maxInst int) []*Term {
 					}
 					done[k] = true
 					inst := Subst(body, map[*Term]*Term{v: t})
+					if DebugInst {
+						fmt.Printf("   %s := %s\n", v.Name, t.Short(120))
+					}
 					out = append(out, Implies(f, inst))
 					total++
 					n++
@@ -272,4 +356,20 @@ func AbstractQuantifiers(asserts []*Term) ([]*Term, bool) {
 		out[i] = Subst(a, m)
 	}
 	return out, true
+}
+
+// Skolemize applies goal-side skolemisation only.
+func Skolemize(asserts []*Term) []*Term {
+	out := make([]*Term, len(asserts))
+	for i, a := range asserts {
+		out[i] = skolemize(a, true)
+	}
+	return out
+}
+
+func trunc(s string, n int) string {
+	if len(s) > n {
+		return s[:n] + "..."
+	}
+	return s
 }
